@@ -532,6 +532,10 @@ class SymReal:
         if q is None:
             return NotImplemented
         bn, bd, bv = q
+        if self.n is bn and self.d is None and bd is None and self.n.op == "var" and self.n.args[0].startswith("root!2!"):
+            x = cur().roots.get(self.n.args[0])
+            if x is not None:
+                return x  # sqrt(x) * sqrt(x) -> x   (x >= 0 was decided when the root was introduced)
         n, d = mul(self.n, bn), _mulq(self.d, bd)
         if d is not None and n is d:
             return SymReal(R1, None, self.v * bv)
